@@ -109,6 +109,19 @@ def run(chk, replay):
                     cases.append(dict(cfg0, id="l%d" % k, limit=LIMIT, fails=fails, attempts=[[] for _ in range(fails)] + [last], done=False,
                                       stream="corpus", size=sum(x["n"] for x in last), timeout=120))
                     k += 1
+        # slow status consumer (what the agent's consumer is): the failed attempt's worker is parked in `done <- node` while the
+        # next attempt already runs; nothing it does afterwards may touch the new attempt's files
+        slow_cfgs = [{"so": True, "se": False, "ou": False, "sc": False}, {"so": False, "se": False, "ou": True, "sc": True},
+                     {"so": False, "se": False, "ou": False, "sc": False}, {"so": True, "se": True, "ou": False, "sc": True},
+                     {"so": False, "se": True, "ou": False, "sc": False}]
+        for cfg0 in slow_cfgs:
+            for fails in (1, 2):
+                for n in ([7, 5000] if quick else [1, 7, 3000, 4096, 4097, 5000, 40000]):
+                    stream = rng.choice(["stdout", "both"]) if n > 1 else "stdout"
+                    atts = [segs_for(rng, "stdout", rng.choice([0, 3, 100])) for _ in range(fails)] + [segs_for(rng, stream, n)]
+                    cases.append(dict(cfg0, id="l%d" % k, limit=LIMIT, fails=fails, attempts=atts, done=True, slow_ms=150, last_sleep_ms=450,
+                                      stream="slow:" + stream, size=n, timeout=120))
+                    k += 1
         cfgs = [{"so": bool(a), "se": bool(b), "ou": bool(c), "sc": bool(d)} for a in (0, 1) for b in (0, 1) for c in (0, 1) for d in (0, 1)]
         sizes = list(SIZES_Q) + ([1 << 20] if not quick else [])
         for cfg in cfgs:
@@ -189,8 +202,17 @@ def run(chk, replay):
             chk.nontrivial.add((name, runs, c.get("stream"), c.get("size")))
         want_status = "failed" if c["fails"] > c["limit"] else "finished"
         if r.get("attempts_run") != runs or r.get("status") != want_status:
-            chk.oblige("harness-expectation:%s" % cid, False, "attempts_run=%s (want %d) status=%s (want %s) %s" %
-                       (r.get("attempts_run"), runs, r.get("status"), want_status, json.dumps(c)[:300]))
+            # the run did not go as the case describes (also after being re-run alone).  The harness's own monitor judged the LAST
+            # attempt that really ran against the files: a final state with an incomplete log is a failing input of the property.
+            for key, what in (("m_log_has_all", "log"), ("m_out_has_all", "stdout-file"), ("m_err_has_all", "stderr-file")):
+                if r.get(key) is False:
+                    chk.violation("C12:%s-incomplete:run-disturbed:%s" % (what, name),
+                                  "step reported %s after %s attempt(s) (%s expected, error %r): its %s (%d bytes) does not hold what the last "
+                                  "attempt that ran printed (cfg %s, stream %s)" % (r.get("status"), r.get("attempts_run"), runs, r.get("sched_err"),
+                                                                                 what, r[{"log": "log", "stdout-file": "out", "stderr-file": "err"}[what]]["len"],
+                                                                                 name, c.get("stream")), c)
+            chk.oblige("harness-expectation:%s" % cid, False, "attempts_run=%s (want %d) status=%s (want %s) err=%s %s" %
+                       (r.get("attempts_run"), runs, r.get("status"), want_status, r.get("sched_err"), json.dumps(c)[:300]))
             continue
         last = c["attempts"][runs - 1]
         want_log, out_segs, want_err, sink = expected(c, runs - 1, last)
